@@ -430,7 +430,9 @@ func c11GenOp(r *Rng, conj bool) string {
 			t := c11GenTags(r, false)
 			if r.N(3) == 0 {
 				v = "nil"
-				t = "-"
+				if r.Bool() {
+					t = "-" // (a delete operation may carry tags: they mean nothing, and must not go anywhere)
+				}
 			}
 			ops = append(ops, c11GenKey(r)+"/"+v+"/"+t)
 		}
